@@ -27,7 +27,7 @@ RULE = ('case = (operation, number of sub-operations, outcome pattern, pending-r
         '(operation, count, outcome pattern); non-trivial = at least one sub-operation or the empty case itself')
 ASSUMPTIONS = ['every instance has a unique SOP Instance UID, so stores and yields identify their sub-operation']
 REQUIRED = ['oracle.get-exactly-once', 'oracle.get-yield-order', 'oracle.move-exactly-once',
-            'oracle.move-progress', 'oracle.move-one-final']
+            'oracle.move-progress', 'oracle.move-one-final', 'oracle.interleaved-retrieves']
 
 N = {'quick': 1600, 'thorough': 200000}
 
@@ -42,11 +42,16 @@ NTCP = {'quick': 64, 'thorough': 1600}
 def plan(tier, seed):
     specs = [{'lo': p[0], 'hi': p[-1] + 1} for p in chunked(range(N[tier]), 16) if p]
     specs += [{'tcp': True, 'lo': p[0], 'hi': p[-1] + 1} for p in chunked(range(NTCP[tier]), 8) if p]
+    specs.append({'pair': True, 'n': 40 if tier == 'quick' else 2000})
     return specs
 
 
 def run_shard(spec, tier, seed):
     res = Result()
+    if spec.get('pair'):
+        from . import c19pair
+        c19pair.run(res, seed, spec['n'])
+        return res
     if spec.get('tcp'):
         for i in range(spec['lo'], spec['hi']):
             tcp_case(res, {'op': 'tcp', 'index': i, 'seed': seed})
@@ -61,6 +66,10 @@ def run_shard(spec, tier, seed):
 
 def replay(case):
     res = Result()
+    if case.get('pair'):
+        from . import c19pair
+        c19pair.run(res, case.get('seed', 0), case.get('round', 0) + 1)
+        return res
     if case['op'] == 'tcp':
         tcp_case(res, case)
         return res
